@@ -64,6 +64,11 @@ CHECKS = {
   technique="runtime monitoring over two completely enumerated finite products: every cell is a one-use VCL program linted by the real linter and executed by the real interpreter in its scope; verdicts compared with the YAML reference tables read at run time and a frozen operator table",
   text="Every predefined variable x {get,set,unset,typed read} x 9 scopes, every built-in function x signature x 9 scopes x {expression, statement}, every scope-restricted statement and return action x 9 scopes, every assignment/comparison operator x type x type x {literal, local, predefined} (and, in thorough, all 36 two-scope annotations and argument-count/type variants) is instantiated, linted and, when accepted, executed as `falco test` would. The linter must agree with __generator__/*.yml (multi-scope = every scope) and with reftab/assign_table.json; everything accepted must execute without type/undefined/arity errors or crashes. exhaustive: true.",
   note="The operator reference is a table frozen from the linter at the pinned commit (doubtful cells listed in harness/cmd/c05/FINDINGS.md), so for operators the check detects changes, not pre-existing mistakes; the YAML tables are read from /repo. 441 cells that disagree today (mostly variables the simulator does not implement) are listed one by one in known_findings.json."),
+ "C11": dict(
+  category="exploration", design_ref="DESIGN.md §4 C11",
+  technique="runtime monitoring: crash/budget watchdogs around the real linter (counting resolver for include expansion), repeat monitor (8 fresh lint runs per input, multiset equality) and permutation monitor (subroutine declarations permuted, diagnostics mapped to (declaration, statement ordinal))",
+  text="Generated programs (type-blind, hence ill-typed as often as not), hand-written recursion/duplicate/goto/functional programs, every example file and all include digraphs over up to three modules (top-level and in-subroutine includes) are linted by the real linter in supervised workers: no panic, no stack overflow, no more than 10000 module loads; eight repeated runs must give equal diagnostic multisets; permuting the subroutine declarations must leave the diagnostics unchanged apart from locations.",
+  note="Map-iteration nondeterminism is only sampled (8 repetitions per input, thousands of inputs); the location mapping relies on the renderer's token positions."),
 }
 
 NOT_APPLICABLE = {}
